@@ -206,7 +206,7 @@ Definition on_message (self : pid) (p : proc) (m : msg) : eres :=
   | FRecv pay cont from k =>
     if is_self from then
       if rule_eqb (m_rule m) RRCV then
-        let b := subst cont (new_self (ident (m_c2 m))) (subst pay (m_c1 m) k) in
+        let b := subst cont (new_self "") (subst pay (m_c1 m) k) in
         EOk (no_eff (Continue (set_provs_body p [m_c2 m] b)))
       else EErr "expected RCV"
     else
@@ -217,7 +217,7 @@ Definition on_message (self : pid) (p : proc) (m : msg) : eres :=
     if is_self from then
       if rule_eqb (m_rule m) RBRA then
         match find_branch (m_label m) bs with
-        | Some (pay, k) => EOk (no_eff (Continue (set_provs_body p [m_c1 m] (subst pay (new_self (ident (m_c1 m))) k))))
+        | Some (pay, k) => EOk (no_eff (Continue (set_provs_body p [m_c1 m] (subst pay (new_self "") k))))
         | None => EErr "no matching labels found"
         end
       else EErr "expected BRA"
@@ -233,7 +233,7 @@ Definition on_message (self : pid) (p : proc) (m : msg) : eres :=
   | FShift x from k =>
     if is_self from then
       if rule_eqb (m_rule m) RSHF then
-        EOk (no_eff (Continue (set_provs_body p [m_c1 m] (subst x (new_self (ident (m_c1 m))) k))))
+        EOk (no_eff (Continue (set_provs_body p [m_c1 m] (subst x (new_self "") k))))
       else EErr "expected SHF"
     else
       if rule_eqb (m_rule m) RCST then EOk (no_eff (Continue (set_body p (subst x (m_c1 m) k)))) else EErr "expected CST"
